@@ -229,7 +229,12 @@ impl GearSets {
 
         let header = DatHeader::read(&mut cursor).ok()?;
 
-        let mut buffer = vec![0; header.content_size as usize - 1];
+        // the size comes from the file: it must be at least the terminator and fit into what follows the header
+        let content_size = (header.content_size as usize).checked_sub(1)?;
+        if content_size > buffer.len() {
+            return None;
+        }
+        let mut buffer = vec![0; content_size];
         cursor.read_exact(&mut buffer).ok()?;
 
         let decoded = buffer.iter().map(|x| *x ^ GEARSET_KEY).collect::<Vec<_>>();
